@@ -681,10 +681,44 @@ pub fn c06err() -> bool {
     bad
 }
 
+/// C07 (import through the store): a document first imported read-only is upgraded by importing its write secret — also
+/// directly after a snapshot-based read (list_namespaces) — the outcome says so, and a later read-only import changes nothing.
+pub fn c07imp() -> bool {
+    use iroh_docs::store::ImportNamespaceOutcome;
+    use iroh_docs::Capability;
+    let mut bad = false;
+    for read_between in [false, true] {
+        let mut store = Store::memory();
+        let ns = NamespaceSecret::from_bytes(&[95u8; 32]);
+        let author = Author::from_bytes(&[96u8; 32]);
+        let id = ns.id();
+        let o1 = store.import_namespace(Capability::Read(id)).unwrap();
+        if read_between {
+            let _ = store.list_namespaces().unwrap().count();
+        }
+        let o2 = store.import_namespace(Capability::Write(ns.clone())).unwrap();
+        if read_between {
+            let _ = store.list_namespaces().unwrap().count();
+        }
+        let o3 = store.import_namespace(Capability::Read(id)).unwrap();
+        let writable = {
+            let mut replica = store.open_replica(&id).unwrap();
+            let (h, l) = hash(b"v");
+            block_on(replica.insert(b"k", &author, h, l)).is_ok()
+        };
+        if !matches!(o1, ImportNamespaceOutcome::Inserted) || !matches!(o2, ImportNamespaceOutcome::Upgraded) || !matches!(o3, ImportNamespaceOutcome::NoChange) || !writable {
+            eprintln!("c07imp (read in between: {read_between}): outcomes {o1:?} {o2:?} {o3:?} (expected Inserted, Upgraded, NoChange); writable afterwards: {writable}");
+            bad = true;
+        }
+    }
+    bad
+}
+
 pub fn run(id: &str) -> Option<bool> {
     Some(match id {
         "d2" => d2(),
         "c16hashes" => c16hashes(),
+        "c07imp" => c07imp(),
         "c06err" => c06err(),
         "c14gate" => c14gate(),
         "c16open" => c16open(),
